@@ -712,3 +712,44 @@ Proof.
     apply existsb_exists in H2. destruct H2 as (m & Hm & H2). apply existsb_exists in H2. destruct H2 as (s & Hs & H2).
     apply andb_true_iff in H2. destruct H2 as [Hc Hn]. exists m, s. repeat split; try assumption. apply name_eqb_eq. exact Hn.
 Qed.
+
+(** ** generated node types (C11) *)
+Lemma first_case_map id : forall ms,
+  first_case (map (fun m => (msg_id m, msg_name m)) ms) id =
+  match find_message ms id with Some m => Some (msg_name m) | None => None end.
+Proof. induction ms as [|m tl IH]; cbn; [reflexivity|]. destruct (msg_id m =? id); [reflexivity|exact IH]. Qed.
+
+Lemma nodegen_ok_correct db n ng : nodegen_ok db n ng = true ->
+  ng_name ng = node_name n /\ ng_desc ng = node_name n /\
+  (forall id, wiring_received ng id =
+              Some (match find_message (collect_rx db n) id with Some m => Some (msg_name m) | None => None end)) /\
+  wiring_transmitted ng = Some (map msg_name (collect_tx db n)).
+Proof.
+  unfold nodegen_ok. rewrite !andb_true_iff. intros [[[[[[[[[[Hn Hd] _] _] _] _] _] _] Hdef] Hr] Ht].
+  apply name_eqb_eq in Hn. apply name_eqb_eq in Hd. split; [exact Hn|]. split; [exact Hd|].
+  unfold wiring_received, wiring_transmitted. rewrite Hdef.
+  destruct (resolved_received ng) as [l|]; [|discriminate]. cbn [opt_eqb] in Hr.
+  apply (list_eqb_eq (fun a b => (fst a =? fst b) && name_eqb (snd a) (snd b))) in Hr.
+  2:{ intros [a1 a2] [b1 b2]. cbn [fst snd]. rewrite andb_true_iff. intros [A B].
+      apply Z.eqb_eq in A. apply name_eqb_eq in B. subst. reflexivity. }
+  destruct (resolved_transmitted ng) as [l2|]; [|discriminate]. cbn [opt_eqb] in Ht.
+  apply (list_eqb_eq _ name_eqb_eq) in Ht. subst. split; [|reflexivity].
+  intros id. rewrite first_case_map. reflexivity.
+Qed.
+
+Theorem nodes_wiring_correct db p :
+  nodes_wiring_ok db p = true ->
+  (has_send_type db = false -> p_nodegens p = []) /\
+  (has_send_type db = true ->
+   Forall2 (fun n ng =>
+      ng_name ng = node_name n /\ ng_desc ng = node_name n /\
+      (forall id, wiring_received ng id =
+                  Some (match find_message (collect_rx db n) id with Some m => Some (msg_name m) | None => None end)) /\
+      wiring_transmitted ng = Some (map msg_name (collect_tx db n))) (db_nodes db) (p_nodegens p)).
+Proof.
+  unfold nodes_wiring_ok. intros H. split; intros Hs; rewrite Hs in H.
+  - destruct (p_nodegens p); [reflexivity|discriminate].
+  - generalize dependent (p_nodegens p). induction (db_nodes db) as [|n ns IH]; intros [|ng l] H; cbn in H; try discriminate.
+    + constructor.
+    + apply andb_true_iff in H. destruct H as [H1 H2]. constructor; [apply nodegen_ok_correct; exact H1|apply IH; exact H2].
+Qed.
